@@ -30,6 +30,8 @@ pub const EXTRA_MODULES: &[&str] = &[
     "numerics::solve",
     "numerics::fixed_point",
     "extra::astronomy",
+    // the only optional module that imports another optional module (extra::astronomy)
+    "extra::celestial",
 ];
 
 #[derive(Clone, Debug, Serialize, Deserialize)]
@@ -61,6 +63,10 @@ pub enum Ins {
     /// simplifier may name results after it from then on
     ProductUnit { which: u8 },
     /// an expression statement whose unit is such a product
+    /// `let red = 7` where `red` is a constant of a not yet imported module (MODULE_NAMES)
+    ModLet { which: u8 },
+    /// reads that name as an expression statement
+    ModRead { which: u8 },
     /// (`early` is unused, kept so that saved replay files keep loading)
     ProductExpr {
         which: u8,
@@ -69,6 +75,11 @@ pub enum Ins {
         early: bool,
     },
 }
+
+/// (index into EXTRA_MODULES, a constant that module defines): a user definition of that name
+/// made BEFORE the import is replaced by the module's, whether the three steps are one input
+/// or three.
+pub const MODULE_NAMES: &[(usize, &str)] = &[(3, "red"), (3, "black"), (9, "earth_orbital_eccentricity"), (3, "white")];
 
 const PRODUCTS: &[(&str, &str, &str)] = &[("m * s", "m", "s"), ("kg * m", "kg", "m"), ("s * A", "s", "A"), ("m / K", "m", "1/K")];
 
@@ -87,6 +98,8 @@ pub fn ins_strategy() -> impl Strategy<Value = Ins> {
         3 => (0u8..5, any::<u32>()).prop_map(|(ty, seed)| Ins::Print { ty, seed }),
         3 => (any::<bool>(), 0u8..6).prop_map(|(underscore, kind)| Ins::Ans { underscore, kind }),
         1 => (any::<u16>(), any::<u32>()).prop_map(|(f, seed)| Ins::MapFn { f, seed }),
+        1 => (0u8..4).prop_map(|which| Ins::ModLet { which }),
+        1 => (0u8..4).prop_map(|which| Ins::ModRead { which }),
         1 => (0u8..4).prop_map(|which| Ins::ProductUnit { which }),
         2 => (0u8..4, any::<u32>()).prop_map(|(which, seed)| Ins::ProductExpr { which, seed, early: false }),
     ]
@@ -401,6 +414,23 @@ pub fn render_ins(ins: &Ins, env: &mut Env) -> String {
             }
             env.ans = None;
             format!("let {name} = sum(map({fname}, [{a}, {b}]))")
+        }
+        Ins::ModLet { which } => {
+            let (_, name) = MODULE_NAMES[*which as usize % MODULE_NAMES.len()];
+            env.ans = None;
+            if !env.others.iter().any(|n| n == name) {
+                env.others.push(name.to_string());
+            }
+            format!("let {name} = {}", 2 + *which as usize % 7)
+        }
+        Ins::ModRead { which } => {
+            let (m, name) = MODULE_NAMES[*which as usize % MODULE_NAMES.len()];
+            env.ans = None;
+            if env.others.iter().any(|n| n == name) || env.modules.iter().any(|x| x == EXTRA_MODULES[m]) {
+                name.to_string()
+            } else {
+                "3 + 4".to_string()
+            }
         }
         Ins::ProductUnit { which } => {
             let (def, _, _) = PRODUCTS[*which as usize % PRODUCTS.len()];
